@@ -228,6 +228,121 @@ def c_opq(t, i):
     return hx(c.composed_bytes)
 
 
+# ---- framing units -----------------------------------------------------------------------------------
+def unit_class(u):
+    from cryptoparser.tls.record import TlsRecord
+    from cryptoparser.tls.subprotocol import TlsHandshakeServerKeyExchange
+    from cryptoparser.tls.mysql import MySQLRecord
+    from cryptoparser.tls.rdp import TPKT
+    from cryptoparser.tls.openvpn import OpenVpnPacketWrapperTcp
+    from cryptoparser.tls.postgresql import SslRequest, Sync
+    return {'tlsrecord': TlsRecord, 'hskex': TlsHandshakeServerKeyExchange, 'mysql': MySQLRecord, 'tpkt': TPKT,
+            'ovpn': OpenVpnPacketWrapperTcp, 'pgssl': SslRequest, 'pgsync': Sync}[u]
+
+
+def show_frame(u, obj):
+    if u == 'tlsrecord':
+        return '%d,%d;%s' % (int(obj.content_type), obj.protocol_version.version.value.code, hx(obj.fragment))
+    if u == 'hskex':
+        return ';' + hx(obj.param_bytes)
+    if u == 'mysql':
+        return '%d;%s' % (obj.packet_number, hx(obj.packet_bytes))
+    if u == 'tpkt':
+        return '%d;%s' % (obj.version, hx(obj.message))
+    if u == 'ovpn':
+        return ';' + hx(obj.payload)
+    if u in ('pgssl', 'pgsync'):
+        return ';'
+    raise KeyError(u)
+
+
+def mk_frame(u, hd, payload):
+    cls = unit_class(u)
+    if u == 'tlsrecord':
+        from cryptodatahub.tls.version import TlsVersion
+        from cryptoparser.tls.version import TlsProtocolVersion
+        from cryptoparser.tls.subprotocol import TlsContentType
+        ct, ver = (int(x) for x in hd.split(','))
+        version = [m for m in TlsVersion if m.value.code == ver]
+        if not version or ct not in [int(m) for m in TlsContentType]:
+            raise TypeError('not constructible')
+        return cls(fragment=payload, protocol_version=TlsProtocolVersion(version[0]), content_type=TlsContentType(ct))
+    if u == 'hskex':
+        return cls(payload)
+    if u == 'mysql':
+        return cls(packet_number=int(hd), packet_bytes=payload)
+    if u == 'tpkt':
+        return cls(int(hd), payload)
+    if u == 'ovpn':
+        return cls(payload)
+    if payload:
+        raise TypeError('not constructible')
+    return cls()
+
+
+def p_frame(u, h):
+    obj, n = unit_class(u).parse_immutable(bytes.fromhex(h))
+    return '%s n=%d' % (show_frame(u, obj), n)
+
+
+def x_frame(u, h):
+    return show_frame(u, unit_class(u).parse_exact_size(bytes.fromhex(h)))
+
+
+def m_frame(u, h):
+    buf = bytearray.fromhex(h)
+    obj = unit_class(u).parse_mutable(buf)
+    return '%s rest=%s' % (show_frame(u, obj), hx(buf))
+
+
+def c_frame(u, hd, h):
+    return hx(mk_frame(u, hd, bytes.fromhex(h)).compose())
+
+
+def reader_loop(parse_mutable, chunks):
+    """The reader of property C04: on every NotEnoughData it waits for exactly bytes_needed more bytes."""
+    buf = bytearray()
+    need = 0
+    out = []
+    needs = []
+    status = 'RUN'
+    for c in chunks:
+        if status == 'RUN':
+            buf += c
+            need -= len(c)
+            if need <= 0:
+                need = 0
+                guard = len(buf) + 1
+                while buf and status == 'RUN':
+                    if guard == 0:
+                        status = 'FAIL OUTOFFUEL'
+                        break
+                    guard -= 1
+                    try:
+                        before = len(buf)
+                        out.append(parse_mutable(buf))
+                    except NotEnoughData as e:
+                        need = e.bytes_needed
+                        break
+                    except TooMuchData:
+                        status = 'FAIL ERR TooMuchData'
+                    except InvalidValue:
+                        status = 'FAIL ERR InvalidValue'
+                    except InvalidType:
+                        status = 'FAIL ERR InvalidType'
+                    except Exception as e:  # pylint: disable=broad-except
+                        status = 'FAIL LEAK ' + exn_name(e)
+        needs.append(need)
+    return status, out, bytes(buf), need, needs
+
+
+def reader_cmd(u, chunks):
+    cls = unit_class(u)
+    cs = [] if chunks == '-' else [bytes.fromhex(c) for c in chunks.split(',')]
+    status, out, buf, need, needs = reader_loop(cls.parse_mutable, cs)
+    return '%s %s out=[%s] buf=%s need=%d' % (','.join(str(n) for n in needs), status, ','.join(show_frame(u, o) for o in out), hx(buf), need)
+
+
 # ---- vector edit histories ---------------------------------------------------------------------------
 VEC_CLASSES = ['TlsSessionIdVector', 'TlsRenegotiatedConnection', 'TlsCipherSuiteVector', 'TlsCompressionMethodVector',
                'TlsCertificateStatusRequestResponderIdList', 'SshKexAlgorithmVector', 'TlsEllipticCurveVector',
@@ -402,6 +517,7 @@ def impl_vec_line(line):
 
 
 COMMANDS = {
+    'pframe': p_frame, 'xframe': x_frame, 'mframe': m_frame, 'cframe': c_frame,
     'popq': p_opq, 'copq': c_opq,
     'penum': p_enum, 'cenum': c_enum, 'pinv': p_inv, 'pevec': p_evec, 'cevec': c_evec,
     'cts': c_ts, 'pts': p_ts, 'pflags': p_flags, 'cflags': c_flags,
@@ -413,6 +529,8 @@ def impl_line(line):
     ws = line.split(' ')
     if ws[0] == 'vec':
         return impl_vec_line(line)
+    if ws[0] == 'reader':
+        return reader_cmd(ws[1], ws[2])
     fn = COMMANDS.get(ws[0])
     if fn is None:
         return 'BADCMD'
